@@ -162,6 +162,8 @@ import "gitlab.com/gomidi/midi/v2"
 //@ modifies *text
 //@ ensures [P:C15] text != nil ==> textAt(m, 1, text)
 //@ ensures [P:C15] text != nil ==> textAt(m, 2, text)
+//@ ensures [P:C15] text != nil ==> textAt(m, 3, text)
+//@ ensures [P:C15] text != nil ==> textAt(m, 4, text)
 
 //@ func MetaLyric
 //@ requires len(text) < 268435456
@@ -175,6 +177,8 @@ import "gitlab.com/gomidi/midi/v2"
 //@ ensures [P:C15] (len(m) >= 3 && m[0] == 0xFF && m[1] == 0x05) ==> is
 //@ ensures [P:C15] is && text != nil ==> textAt(m, 1, text)
 //@ ensures [P:C15] is && text != nil ==> textAt(m, 2, text)
+//@ ensures [P:C15] is && text != nil ==> textAt(m, 3, text)
+//@ ensures [P:C15] is && text != nil ==> textAt(m, 4, text)
 
 //@ func MetaCopyright
 //@ requires len(text) < 268435456
@@ -188,6 +192,8 @@ import "gitlab.com/gomidi/midi/v2"
 //@ ensures [P:C15] (len(m) >= 3 && m[0] == 0xFF && m[1] == 0x02) ==> is
 //@ ensures [P:C15] is && text != nil ==> textAt(m, 1, text)
 //@ ensures [P:C15] is && text != nil ==> textAt(m, 2, text)
+//@ ensures [P:C15] is && text != nil ==> textAt(m, 3, text)
+//@ ensures [P:C15] is && text != nil ==> textAt(m, 4, text)
 
 //@ func MetaCuepoint
 //@ requires len(text) < 268435456
@@ -201,6 +207,8 @@ import "gitlab.com/gomidi/midi/v2"
 //@ ensures [P:C15] (len(m) >= 3 && m[0] == 0xFF && m[1] == 0x07) ==> is
 //@ ensures [P:C15] is && text != nil ==> textAt(m, 1, text)
 //@ ensures [P:C15] is && text != nil ==> textAt(m, 2, text)
+//@ ensures [P:C15] is && text != nil ==> textAt(m, 3, text)
+//@ ensures [P:C15] is && text != nil ==> textAt(m, 4, text)
 
 //@ func MetaDevice
 //@ requires len(text) < 268435456
@@ -214,6 +222,8 @@ import "gitlab.com/gomidi/midi/v2"
 //@ ensures [P:C15] (len(m) >= 3 && m[0] == 0xFF && m[1] == 0x09) ==> is
 //@ ensures [P:C15] is && text != nil ==> textAt(m, 1, text)
 //@ ensures [P:C15] is && text != nil ==> textAt(m, 2, text)
+//@ ensures [P:C15] is && text != nil ==> textAt(m, 3, text)
+//@ ensures [P:C15] is && text != nil ==> textAt(m, 4, text)
 
 //@ func MetaInstrument
 //@ requires len(text) < 268435456
@@ -227,6 +237,8 @@ import "gitlab.com/gomidi/midi/v2"
 //@ ensures [P:C15] (len(m) >= 3 && m[0] == 0xFF && m[1] == 0x04) ==> is
 //@ ensures [P:C15] is && text != nil ==> textAt(m, 1, text)
 //@ ensures [P:C15] is && text != nil ==> textAt(m, 2, text)
+//@ ensures [P:C15] is && text != nil ==> textAt(m, 3, text)
+//@ ensures [P:C15] is && text != nil ==> textAt(m, 4, text)
 
 //@ func MetaMarker
 //@ requires len(text) < 268435456
@@ -240,6 +252,8 @@ import "gitlab.com/gomidi/midi/v2"
 //@ ensures [P:C15] (len(m) >= 3 && m[0] == 0xFF && m[1] == 0x06) ==> is
 //@ ensures [P:C15] is && text != nil ==> textAt(m, 1, text)
 //@ ensures [P:C15] is && text != nil ==> textAt(m, 2, text)
+//@ ensures [P:C15] is && text != nil ==> textAt(m, 3, text)
+//@ ensures [P:C15] is && text != nil ==> textAt(m, 4, text)
 
 //@ func MetaProgram
 //@ requires len(text) < 268435456
@@ -253,6 +267,8 @@ import "gitlab.com/gomidi/midi/v2"
 //@ ensures [P:C15] (len(m) >= 3 && m[0] == 0xFF && m[1] == 0x08) ==> is
 //@ ensures [P:C15] is && text != nil ==> textAt(m, 1, text)
 //@ ensures [P:C15] is && text != nil ==> textAt(m, 2, text)
+//@ ensures [P:C15] is && text != nil ==> textAt(m, 3, text)
+//@ ensures [P:C15] is && text != nil ==> textAt(m, 4, text)
 
 //@ func MetaText
 //@ requires len(text) < 268435456
@@ -266,6 +282,8 @@ import "gitlab.com/gomidi/midi/v2"
 //@ ensures [P:C15] (len(m) >= 3 && m[0] == 0xFF && m[1] == 0x01) ==> is
 //@ ensures [P:C15] is && text != nil ==> textAt(m, 1, text)
 //@ ensures [P:C15] is && text != nil ==> textAt(m, 2, text)
+//@ ensures [P:C15] is && text != nil ==> textAt(m, 3, text)
+//@ ensures [P:C15] is && text != nil ==> textAt(m, 4, text)
 
 //@ func MetaTrackSequenceName
 //@ requires len(text) < 268435456
@@ -279,6 +297,8 @@ import "gitlab.com/gomidi/midi/v2"
 //@ ensures [P:C15] (len(m) >= 3 && m[0] == 0xFF && m[1] == 0x03) ==> is
 //@ ensures [P:C15] is && text != nil ==> textAt(m, 1, text)
 //@ ensures [P:C15] is && text != nil ==> textAt(m, 2, text)
+//@ ensures [P:C15] is && text != nil ==> textAt(m, 3, text)
+//@ ensures [P:C15] is && text != nil ==> textAt(m, 4, text)
 
 // ---------------------------------------------------------------- proof harnesses (C15: constructors and accessors are mutually inverse)
 
@@ -330,6 +350,36 @@ func verifInverseMetaLyricLong(s string) (ok bool, out string) {
 //@ ensures [P:C15] len(out) == len(s)
 //@ ensures [P:C15] forall i int :: 0 <= i && i < len(s) ==> out[i] == s[i]
 
+// verifInverseMetaLyricLong3: GetMetaLyric(MetaLyric(s)) == s  (len(s) >= 16384 && len(s) < 2097152)
+func verifInverseMetaLyricLong3(s string) (ok bool, out string) {
+	m := MetaLyric(s)
+	verifLemmaVlq(m, 2, uint32(len(s)))
+	verifLemmaLen(len(s))
+	ok = m.GetMetaLyric(&out)
+	return
+}
+
+//@ func verifInverseMetaLyricLong3
+//@ requires len(s) >= 16384 && len(s) < 2097152
+//@ ensures [P:C15] ok
+//@ ensures [P:C15] len(out) == len(s)
+//@ ensures [P:C15] forall i int :: 0 <= i && i < len(s) ==> out[i] == s[i]
+
+// verifInverseMetaLyricLong4: GetMetaLyric(MetaLyric(s)) == s  (len(s) >= 2097152 && len(s) < 268435456)
+func verifInverseMetaLyricLong4(s string) (ok bool, out string) {
+	m := MetaLyric(s)
+	verifLemmaVlq(m, 2, uint32(len(s)))
+	verifLemmaLen(len(s))
+	ok = m.GetMetaLyric(&out)
+	return
+}
+
+//@ func verifInverseMetaLyricLong4
+//@ requires len(s) >= 2097152 && len(s) < 268435456
+//@ ensures [P:C15] ok
+//@ ensures [P:C15] len(out) == len(s)
+//@ ensures [P:C15] forall i int :: 0 <= i && i < len(s) ==> out[i] == s[i]
+
 // verifInverseMetaCopyrightShort: GetMetaCopyright(MetaCopyright(s)) == s  (len(s) < 128)
 func verifInverseMetaCopyrightShort(s string) (ok bool, out string) {
 	m := MetaCopyright(s)
@@ -356,6 +406,36 @@ func verifInverseMetaCopyrightLong(s string) (ok bool, out string) {
 
 //@ func verifInverseMetaCopyrightLong
 //@ requires len(s) >= 128 && len(s) < 16384
+//@ ensures [P:C15] ok
+//@ ensures [P:C15] len(out) == len(s)
+//@ ensures [P:C15] forall i int :: 0 <= i && i < len(s) ==> out[i] == s[i]
+
+// verifInverseMetaCopyrightLong3: GetMetaCopyright(MetaCopyright(s)) == s  (len(s) >= 16384 && len(s) < 2097152)
+func verifInverseMetaCopyrightLong3(s string) (ok bool, out string) {
+	m := MetaCopyright(s)
+	verifLemmaVlq(m, 2, uint32(len(s)))
+	verifLemmaLen(len(s))
+	ok = m.GetMetaCopyright(&out)
+	return
+}
+
+//@ func verifInverseMetaCopyrightLong3
+//@ requires len(s) >= 16384 && len(s) < 2097152
+//@ ensures [P:C15] ok
+//@ ensures [P:C15] len(out) == len(s)
+//@ ensures [P:C15] forall i int :: 0 <= i && i < len(s) ==> out[i] == s[i]
+
+// verifInverseMetaCopyrightLong4: GetMetaCopyright(MetaCopyright(s)) == s  (len(s) >= 2097152 && len(s) < 268435456)
+func verifInverseMetaCopyrightLong4(s string) (ok bool, out string) {
+	m := MetaCopyright(s)
+	verifLemmaVlq(m, 2, uint32(len(s)))
+	verifLemmaLen(len(s))
+	ok = m.GetMetaCopyright(&out)
+	return
+}
+
+//@ func verifInverseMetaCopyrightLong4
+//@ requires len(s) >= 2097152 && len(s) < 268435456
 //@ ensures [P:C15] ok
 //@ ensures [P:C15] len(out) == len(s)
 //@ ensures [P:C15] forall i int :: 0 <= i && i < len(s) ==> out[i] == s[i]
@@ -390,6 +470,36 @@ func verifInverseMetaCuepointLong(s string) (ok bool, out string) {
 //@ ensures [P:C15] len(out) == len(s)
 //@ ensures [P:C15] forall i int :: 0 <= i && i < len(s) ==> out[i] == s[i]
 
+// verifInverseMetaCuepointLong3: GetMetaCuepoint(MetaCuepoint(s)) == s  (len(s) >= 16384 && len(s) < 2097152)
+func verifInverseMetaCuepointLong3(s string) (ok bool, out string) {
+	m := MetaCuepoint(s)
+	verifLemmaVlq(m, 2, uint32(len(s)))
+	verifLemmaLen(len(s))
+	ok = m.GetMetaCuepoint(&out)
+	return
+}
+
+//@ func verifInverseMetaCuepointLong3
+//@ requires len(s) >= 16384 && len(s) < 2097152
+//@ ensures [P:C15] ok
+//@ ensures [P:C15] len(out) == len(s)
+//@ ensures [P:C15] forall i int :: 0 <= i && i < len(s) ==> out[i] == s[i]
+
+// verifInverseMetaCuepointLong4: GetMetaCuepoint(MetaCuepoint(s)) == s  (len(s) >= 2097152 && len(s) < 268435456)
+func verifInverseMetaCuepointLong4(s string) (ok bool, out string) {
+	m := MetaCuepoint(s)
+	verifLemmaVlq(m, 2, uint32(len(s)))
+	verifLemmaLen(len(s))
+	ok = m.GetMetaCuepoint(&out)
+	return
+}
+
+//@ func verifInverseMetaCuepointLong4
+//@ requires len(s) >= 2097152 && len(s) < 268435456
+//@ ensures [P:C15] ok
+//@ ensures [P:C15] len(out) == len(s)
+//@ ensures [P:C15] forall i int :: 0 <= i && i < len(s) ==> out[i] == s[i]
+
 // verifInverseMetaDeviceShort: GetMetaDevice(MetaDevice(s)) == s  (len(s) < 128)
 func verifInverseMetaDeviceShort(s string) (ok bool, out string) {
 	m := MetaDevice(s)
@@ -416,6 +526,36 @@ func verifInverseMetaDeviceLong(s string) (ok bool, out string) {
 
 //@ func verifInverseMetaDeviceLong
 //@ requires len(s) >= 128 && len(s) < 16384
+//@ ensures [P:C15] ok
+//@ ensures [P:C15] len(out) == len(s)
+//@ ensures [P:C15] forall i int :: 0 <= i && i < len(s) ==> out[i] == s[i]
+
+// verifInverseMetaDeviceLong3: GetMetaDevice(MetaDevice(s)) == s  (len(s) >= 16384 && len(s) < 2097152)
+func verifInverseMetaDeviceLong3(s string) (ok bool, out string) {
+	m := MetaDevice(s)
+	verifLemmaVlq(m, 2, uint32(len(s)))
+	verifLemmaLen(len(s))
+	ok = m.GetMetaDevice(&out)
+	return
+}
+
+//@ func verifInverseMetaDeviceLong3
+//@ requires len(s) >= 16384 && len(s) < 2097152
+//@ ensures [P:C15] ok
+//@ ensures [P:C15] len(out) == len(s)
+//@ ensures [P:C15] forall i int :: 0 <= i && i < len(s) ==> out[i] == s[i]
+
+// verifInverseMetaDeviceLong4: GetMetaDevice(MetaDevice(s)) == s  (len(s) >= 2097152 && len(s) < 268435456)
+func verifInverseMetaDeviceLong4(s string) (ok bool, out string) {
+	m := MetaDevice(s)
+	verifLemmaVlq(m, 2, uint32(len(s)))
+	verifLemmaLen(len(s))
+	ok = m.GetMetaDevice(&out)
+	return
+}
+
+//@ func verifInverseMetaDeviceLong4
+//@ requires len(s) >= 2097152 && len(s) < 268435456
 //@ ensures [P:C15] ok
 //@ ensures [P:C15] len(out) == len(s)
 //@ ensures [P:C15] forall i int :: 0 <= i && i < len(s) ==> out[i] == s[i]
@@ -450,6 +590,36 @@ func verifInverseMetaInstrumentLong(s string) (ok bool, out string) {
 //@ ensures [P:C15] len(out) == len(s)
 //@ ensures [P:C15] forall i int :: 0 <= i && i < len(s) ==> out[i] == s[i]
 
+// verifInverseMetaInstrumentLong3: GetMetaInstrument(MetaInstrument(s)) == s  (len(s) >= 16384 && len(s) < 2097152)
+func verifInverseMetaInstrumentLong3(s string) (ok bool, out string) {
+	m := MetaInstrument(s)
+	verifLemmaVlq(m, 2, uint32(len(s)))
+	verifLemmaLen(len(s))
+	ok = m.GetMetaInstrument(&out)
+	return
+}
+
+//@ func verifInverseMetaInstrumentLong3
+//@ requires len(s) >= 16384 && len(s) < 2097152
+//@ ensures [P:C15] ok
+//@ ensures [P:C15] len(out) == len(s)
+//@ ensures [P:C15] forall i int :: 0 <= i && i < len(s) ==> out[i] == s[i]
+
+// verifInverseMetaInstrumentLong4: GetMetaInstrument(MetaInstrument(s)) == s  (len(s) >= 2097152 && len(s) < 268435456)
+func verifInverseMetaInstrumentLong4(s string) (ok bool, out string) {
+	m := MetaInstrument(s)
+	verifLemmaVlq(m, 2, uint32(len(s)))
+	verifLemmaLen(len(s))
+	ok = m.GetMetaInstrument(&out)
+	return
+}
+
+//@ func verifInverseMetaInstrumentLong4
+//@ requires len(s) >= 2097152 && len(s) < 268435456
+//@ ensures [P:C15] ok
+//@ ensures [P:C15] len(out) == len(s)
+//@ ensures [P:C15] forall i int :: 0 <= i && i < len(s) ==> out[i] == s[i]
+
 // verifInverseMetaMarkerShort: GetMetaMarker(MetaMarker(s)) == s  (len(s) < 128)
 func verifInverseMetaMarkerShort(s string) (ok bool, out string) {
 	m := MetaMarker(s)
@@ -476,6 +646,36 @@ func verifInverseMetaMarkerLong(s string) (ok bool, out string) {
 
 //@ func verifInverseMetaMarkerLong
 //@ requires len(s) >= 128 && len(s) < 16384
+//@ ensures [P:C15] ok
+//@ ensures [P:C15] len(out) == len(s)
+//@ ensures [P:C15] forall i int :: 0 <= i && i < len(s) ==> out[i] == s[i]
+
+// verifInverseMetaMarkerLong3: GetMetaMarker(MetaMarker(s)) == s  (len(s) >= 16384 && len(s) < 2097152)
+func verifInverseMetaMarkerLong3(s string) (ok bool, out string) {
+	m := MetaMarker(s)
+	verifLemmaVlq(m, 2, uint32(len(s)))
+	verifLemmaLen(len(s))
+	ok = m.GetMetaMarker(&out)
+	return
+}
+
+//@ func verifInverseMetaMarkerLong3
+//@ requires len(s) >= 16384 && len(s) < 2097152
+//@ ensures [P:C15] ok
+//@ ensures [P:C15] len(out) == len(s)
+//@ ensures [P:C15] forall i int :: 0 <= i && i < len(s) ==> out[i] == s[i]
+
+// verifInverseMetaMarkerLong4: GetMetaMarker(MetaMarker(s)) == s  (len(s) >= 2097152 && len(s) < 268435456)
+func verifInverseMetaMarkerLong4(s string) (ok bool, out string) {
+	m := MetaMarker(s)
+	verifLemmaVlq(m, 2, uint32(len(s)))
+	verifLemmaLen(len(s))
+	ok = m.GetMetaMarker(&out)
+	return
+}
+
+//@ func verifInverseMetaMarkerLong4
+//@ requires len(s) >= 2097152 && len(s) < 268435456
 //@ ensures [P:C15] ok
 //@ ensures [P:C15] len(out) == len(s)
 //@ ensures [P:C15] forall i int :: 0 <= i && i < len(s) ==> out[i] == s[i]
@@ -510,6 +710,36 @@ func verifInverseMetaProgramLong(s string) (ok bool, out string) {
 //@ ensures [P:C15] len(out) == len(s)
 //@ ensures [P:C15] forall i int :: 0 <= i && i < len(s) ==> out[i] == s[i]
 
+// verifInverseMetaProgramLong3: GetMetaProgramName(MetaProgram(s)) == s  (len(s) >= 16384 && len(s) < 2097152)
+func verifInverseMetaProgramLong3(s string) (ok bool, out string) {
+	m := MetaProgram(s)
+	verifLemmaVlq(m, 2, uint32(len(s)))
+	verifLemmaLen(len(s))
+	ok = m.GetMetaProgramName(&out)
+	return
+}
+
+//@ func verifInverseMetaProgramLong3
+//@ requires len(s) >= 16384 && len(s) < 2097152
+//@ ensures [P:C15] ok
+//@ ensures [P:C15] len(out) == len(s)
+//@ ensures [P:C15] forall i int :: 0 <= i && i < len(s) ==> out[i] == s[i]
+
+// verifInverseMetaProgramLong4: GetMetaProgramName(MetaProgram(s)) == s  (len(s) >= 2097152 && len(s) < 268435456)
+func verifInverseMetaProgramLong4(s string) (ok bool, out string) {
+	m := MetaProgram(s)
+	verifLemmaVlq(m, 2, uint32(len(s)))
+	verifLemmaLen(len(s))
+	ok = m.GetMetaProgramName(&out)
+	return
+}
+
+//@ func verifInverseMetaProgramLong4
+//@ requires len(s) >= 2097152 && len(s) < 268435456
+//@ ensures [P:C15] ok
+//@ ensures [P:C15] len(out) == len(s)
+//@ ensures [P:C15] forall i int :: 0 <= i && i < len(s) ==> out[i] == s[i]
+
 // verifInverseMetaTextShort: GetMetaText(MetaText(s)) == s  (len(s) < 128)
 func verifInverseMetaTextShort(s string) (ok bool, out string) {
 	m := MetaText(s)
@@ -536,6 +766,36 @@ func verifInverseMetaTextLong(s string) (ok bool, out string) {
 
 //@ func verifInverseMetaTextLong
 //@ requires len(s) >= 128 && len(s) < 16384
+//@ ensures [P:C15] ok
+//@ ensures [P:C15] len(out) == len(s)
+//@ ensures [P:C15] forall i int :: 0 <= i && i < len(s) ==> out[i] == s[i]
+
+// verifInverseMetaTextLong3: GetMetaText(MetaText(s)) == s  (len(s) >= 16384 && len(s) < 2097152)
+func verifInverseMetaTextLong3(s string) (ok bool, out string) {
+	m := MetaText(s)
+	verifLemmaVlq(m, 2, uint32(len(s)))
+	verifLemmaLen(len(s))
+	ok = m.GetMetaText(&out)
+	return
+}
+
+//@ func verifInverseMetaTextLong3
+//@ requires len(s) >= 16384 && len(s) < 2097152
+//@ ensures [P:C15] ok
+//@ ensures [P:C15] len(out) == len(s)
+//@ ensures [P:C15] forall i int :: 0 <= i && i < len(s) ==> out[i] == s[i]
+
+// verifInverseMetaTextLong4: GetMetaText(MetaText(s)) == s  (len(s) >= 2097152 && len(s) < 268435456)
+func verifInverseMetaTextLong4(s string) (ok bool, out string) {
+	m := MetaText(s)
+	verifLemmaVlq(m, 2, uint32(len(s)))
+	verifLemmaLen(len(s))
+	ok = m.GetMetaText(&out)
+	return
+}
+
+//@ func verifInverseMetaTextLong4
+//@ requires len(s) >= 2097152 && len(s) < 268435456
 //@ ensures [P:C15] ok
 //@ ensures [P:C15] len(out) == len(s)
 //@ ensures [P:C15] forall i int :: 0 <= i && i < len(s) ==> out[i] == s[i]
@@ -570,6 +830,36 @@ func verifInverseMetaTrackSequenceNameLong(s string) (ok bool, out string) {
 //@ ensures [P:C15] len(out) == len(s)
 //@ ensures [P:C15] forall i int :: 0 <= i && i < len(s) ==> out[i] == s[i]
 
+// verifInverseMetaTrackSequenceNameLong3: GetMetaTrackName(MetaTrackSequenceName(s)) == s  (len(s) >= 16384 && len(s) < 2097152)
+func verifInverseMetaTrackSequenceNameLong3(s string) (ok bool, out string) {
+	m := MetaTrackSequenceName(s)
+	verifLemmaVlq(m, 2, uint32(len(s)))
+	verifLemmaLen(len(s))
+	ok = m.GetMetaTrackName(&out)
+	return
+}
+
+//@ func verifInverseMetaTrackSequenceNameLong3
+//@ requires len(s) >= 16384 && len(s) < 2097152
+//@ ensures [P:C15] ok
+//@ ensures [P:C15] len(out) == len(s)
+//@ ensures [P:C15] forall i int :: 0 <= i && i < len(s) ==> out[i] == s[i]
+
+// verifInverseMetaTrackSequenceNameLong4: GetMetaTrackName(MetaTrackSequenceName(s)) == s  (len(s) >= 2097152 && len(s) < 268435456)
+func verifInverseMetaTrackSequenceNameLong4(s string) (ok bool, out string) {
+	m := MetaTrackSequenceName(s)
+	verifLemmaVlq(m, 2, uint32(len(s)))
+	verifLemmaLen(len(s))
+	ok = m.GetMetaTrackName(&out)
+	return
+}
+
+//@ func verifInverseMetaTrackSequenceNameLong4
+//@ requires len(s) >= 2097152 && len(s) < 268435456
+//@ ensures [P:C15] ok
+//@ ensures [P:C15] len(out) == len(s)
+//@ ensures [P:C15] forall i int :: 0 <= i && i < len(s) ==> out[i] == s[i]
+
 // ---- sequencer specific data: FF 7F vlq(len) bytes
 //@ macro seqAt(m, c, bt) = (vlqEnds5(arr(m), 2, c) && len(m) == 2 + c + int(vlqDec(arr(m), 2, c))) ==> (len(*bt) == int(vlqDec(arr(m), 2, c)) && forall i int :: 0 <= i && i < len(*bt) ==> (*bt)[i] == m[2 + c + i])
 
@@ -578,8 +868,12 @@ func verifInverseMetaTrackSequenceNameLong(s string) (ok bool, out string) {
 //@ ensures [P:C08] result ==> smfTypeOf(len(m), m[0], m[1]) == MetaSeqDataMsg
 //@ ensures [P:C15] (m[0] == 0xFF && m[1] == 0x7F && vlqEnds5(arr(m), 2, 1) && len(m) == 3 + int(vlqDec(arr(m), 2, 1)) && int(vlqDec(arr(m), 2, 1)) >= 1) ==> result
 //@ ensures [P:C15] (m[0] == 0xFF && m[1] == 0x7F && vlqEnds5(arr(m), 2, 2) && len(m) == 4 + int(vlqDec(arr(m), 2, 2)) && int(vlqDec(arr(m), 2, 2)) >= 1) ==> result
+//@ ensures [P:C15] (m[0] == 0xFF && m[1] == 0x7F && vlqEnds5(arr(m), 2, 3) && len(m) == 5 + int(vlqDec(arr(m), 2, 3)) && int(vlqDec(arr(m), 2, 3)) >= 1) ==> result
+//@ ensures [P:C15] (m[0] == 0xFF && m[1] == 0x7F && vlqEnds5(arr(m), 2, 4) && len(m) == 6 + int(vlqDec(arr(m), 2, 4)) && int(vlqDec(arr(m), 2, 4)) >= 1) ==> result
 //@ ensures [P:C15] result && bt != nil ==> seqAt(m, 1, bt)
 //@ ensures [P:C15] result && bt != nil ==> seqAt(m, 2, bt)
+//@ ensures [P:C15] result && bt != nil ==> seqAt(m, 3, bt)
+//@ ensures [P:C15] result && bt != nil ==> seqAt(m, 4, bt)
 
 // verifInverseMetaSequencerDataShort: GetMetaSeqData(MetaSequencerData(d)) == d  (len(d) >= 1 && len(d) < 128)
 func verifInverseMetaSequencerDataShort(d []byte) (ok bool, out []byte) {
@@ -607,6 +901,36 @@ func verifInverseMetaSequencerDataLong(d []byte) (ok bool, out []byte) {
 
 //@ func verifInverseMetaSequencerDataLong
 //@ requires len(d) >= 128 && len(d) < 16384
+//@ ensures [P:C15] ok
+//@ ensures [P:C15] len(out) == len(d)
+//@ ensures [P:C15] forall i int :: 0 <= i && i < len(d) ==> out[i] == d[i]
+
+// verifInverseMetaSequencerDataLong3: GetMetaSeqData(MetaSequencerData(d)) == d  (len(d) >= 16384 && len(d) < 2097152)
+func verifInverseMetaSequencerDataLong3(d []byte) (ok bool, out []byte) {
+	m := MetaSequencerData(d)
+	verifLemmaVlq(m, 2, uint32(len(d)))
+	verifLemmaLen(len(d))
+	ok = m.GetMetaSeqData(&out)
+	return
+}
+
+//@ func verifInverseMetaSequencerDataLong3
+//@ requires len(d) >= 16384 && len(d) < 2097152
+//@ ensures [P:C15] ok
+//@ ensures [P:C15] len(out) == len(d)
+//@ ensures [P:C15] forall i int :: 0 <= i && i < len(d) ==> out[i] == d[i]
+
+// verifInverseMetaSequencerDataLong4: GetMetaSeqData(MetaSequencerData(d)) == d  (len(d) >= 2097152 && len(d) < 268435456)
+func verifInverseMetaSequencerDataLong4(d []byte) (ok bool, out []byte) {
+	m := MetaSequencerData(d)
+	verifLemmaVlq(m, 2, uint32(len(d)))
+	verifLemmaLen(len(d))
+	ok = m.GetMetaSeqData(&out)
+	return
+}
+
+//@ func verifInverseMetaSequencerDataLong4
+//@ requires len(d) >= 2097152 && len(d) < 268435456
 //@ ensures [P:C15] ok
 //@ ensures [P:C15] len(out) == len(d)
 //@ ensures [P:C15] forall i int :: 0 <= i && i < len(d) ==> out[i] == d[i]
